@@ -83,6 +83,12 @@ def run(prop, level, modname, quick_models, thorough_budget, rule, real_code, st
     if trouble and len(trouble) > max(2, n_models // 5):
         print("HARNESS-TROUBLE: %d of %d model tasks failed inside the harness; first:\n%s" % (len(trouble), n_models + len(trouble), trouble[0]))
         sys.exit(2)
+    if not check.violations and (n_models == 0 or rejected > max(3, (n_models + rejected) // 3)):
+        # a pass that explored (almost) nothing is not a pass: the workload generator and the tool disagree about what a valid
+        # package is, or generated code became unusable across the board - neither is something this check can judge
+        print("HARNESS-TROUBLE: %d of %d generated models were rejected by yardl or their generated code was unusable; nothing was decided"
+              % (rejected, n_models + rejected))
+        sys.exit(2)
     wall = check.elapsed()
     runs = totals.get("runs", 0)
     check.coverage["rule"] = rule
